@@ -373,6 +373,16 @@ def search_exprs(ctx: Ctx) -> SearchResult:
 					tv = rng.choice(['t', 'tt'])
 					fns.append(f"{tv}[{rng.choice(['', '0', '1', '-1', '-2', 'a', 'c'])}:{rng.choice(['', '1', '2', '-1', 'a'])}]")
 					continue
+				if i == 2 and rng.random() < 0.35:
+					# a ternary whose branches share the generic class but differ in its arguments (the inferred type has to cover the
+					# branch that runs; the calls below take both branches). Nothing is applied to it: an operator on such a Union of
+					# containers is the known finding ternary-union-of-containers, which has its own generated forms
+					t1, t2 = rng.choice([(('list', X.INT), ('list', X.FLOAT)), (('list', X.STR), ('list', X.INT)), (('dict', X.STR, X.INT), ('dict', X.STR, X.STR)),
+						(('tuple', X.INT, X.STR), ('tuple', X.STR, X.INT)), (('list', ('list', X.INT)), ('list', ('list', X.FLOAT))), (('dict', X.INT, ('list', X.INT)), ('dict', X.INT, ('list', X.STR)))])
+					if rng.random() < 0.5:
+						t1, t2 = t2, t1
+					fns.append(f"{g.expr(t1, 1).at(X.P_OR)} if {rng.choice(['p', 'q', 'not p', 'a > 1'])} else {g.expr(t2, 1).at(X.P_TERN)}")
+					continue
 				if i == 0:
 					# one flat arithmetic chain per program (mixed operators of one precedence level, mixed int/bool/float operands)
 					fns.append(g.arith(rng.choice([X.FLOAT, X.INT]), 1).text)
